@@ -9,6 +9,7 @@ use rosu_map::util::Pos;
 use serde_json::{json, Value};
 
 pub const K8: &str = "c17.huge_radius_arc_degenerates_to_chord";
+pub const K13: &str = "c17.circumcircle_denominator_dominated_by_rounding";
 
 fn pp(p: Pos) -> P {
     (p.x as f64, p.y as f64)
@@ -75,7 +76,8 @@ struct Geo {
 
 enum SegVerdict {
     Ok(&'static str),
-    Known,
+    /// the failure has the shape of an open known finding (key, what failed)
+    Known(&'static str, String),
     Fail(String),
 }
 
@@ -92,11 +94,10 @@ fn bezier_geo(v: &[P]) -> Geo {
     Geo { exact: ex::bezier_samples(v, n), bound: 0.25 + seg_scale(v) * 2f64.powi(-20) + 2e-3, family: "bezier" }
 }
 
-fn k8(shape: bool, msg: String) -> SegVerdict {
-    if shape {
-        SegVerdict::Known
-    } else {
-        SegVerdict::Fail(msg)
+fn k8(shape: Option<&'static str>, msg: String) -> SegVerdict {
+    match shape {
+        Some(key) => SegVerdict::Known(key, msg),
+        None => SegVerdict::Fail(msg),
     }
 }
 
@@ -111,7 +112,8 @@ fn check_segment(mode: GameMode, kind: SplineType, seg: &[PathControlPoint]) -> 
     let scale = seg_scale(&v);
     // K8: exact circumradius >= 1e6 (the f32 value of 1 - 0.1/r has no significant bits left, the f32
     // circumcentre is ill-conditioned) and the path has a handful of vertices
-    let mut k8_shape = false;
+    let mut k8_shape: Option<&'static str> = None;
+    let mut fell_back = false;
     let geo = match kind {
         SplineType::Linear => {
             // straight polylines are exact: the path is the control polyline
@@ -157,13 +159,15 @@ fn check_segment(mode: GameMode, kind: SplineType, seg: &[PathControlPoint]) -> 
                                 }
                                 return SegVerdict::Ok("arc:fallback");
                             }
-                            return SegVerdict::Fail(format!(
-                                "perfect curve produced the Bezier path although the triple is neither collinear (cross {cr}) nor enormous (arc length {})",
-                                arc.length()
-                            ));
+                            // neither: the crate also falls back when its f32 circumcircle denominator cancels to zero
+                            // (fix F9). That is only acceptable if the Bezier path is as close to the exact arc as an
+                            // arc approximation would have to be - judged below like any other arc
+                            fell_back = true;
                         }
                         let r = arc.radius;
-                        k8_shape = r >= 1.0e6 && path.len() <= 8;
+                        if r >= 1.0e6 && path.len() <= 8 {
+                            k8_shape = Some(K8);
+                        }
                         let n = ((arc.length() * 2.0) as usize).clamp(400, 8000);
                         let sampling = r * (arc.sweep.abs() / n as f64).powi(2) / 8.0;
                         let ulp = ex::ulp_f32(r.max(scale));
@@ -171,8 +175,25 @@ fn check_segment(mode: GameMode, kind: SplineType, seg: &[PathControlPoint]) -> 
                         // rounding error of 2^-24 each and are divided by 2*cross (thin triangles at large
                         // absolute coordinates are ill-conditioned); factor 8 for the number of terms and operations, times 2
                         // because a centre error d moves the far side of the circle by up to 2d
-                        let lmax = ex::dist(v[0], v[1]).max(ex::dist(v[1], v[2])).max(ex::dist(v[0], v[2]));
-                        let f32_cond = 16.0 * 2f64.powi(-24) * scale * scale * lmax / cr.abs();
+                        // (each squared length |p|^2 meets the side opposite to p; the denominator's terms are |p.x| x side)
+                        let opp = [ex::dist(v[1], v[2]), ex::dist(v[2], v[0]), ex::dist(v[0], v[1])];
+                        let norm = |p: P| (p.0 * p.0 + p.1 * p.1).sqrt();
+                        let e_num: f64 = (0..3).map(|i| norm(v[i]).powi(2) * opp[i]).sum::<f64>().max(1e-30);
+                        let e_den: f64 = (0..3).map(|i| norm(v[i]) * opp[i]).sum();
+                        // centre error (first order): numerator error / |2 cross| plus |centre| x relative error of the
+                        // denominator, |centre| <= max|p| + r; K = 16 for the number of terms and operations
+                        let s_abs = v.iter().map(|p| norm(*p)).fold(0.0f64, f64::max);
+                        let delta = 16.0 * 2f64.powi(-24) * (e_num + (s_abs + r) * e_den) / (2.0 * cr.abs());
+                        // a centre error d moves a point of the arc (which still passes through the first point) by
+                        // d * |u - u_a| <= d * 2 sin(sweep / 2): the full 2d beyond a half circle, little on a flat arc
+                        let sweep = arc.sweep.abs();
+                        let geo_factor = if sweep >= std::f64::consts::PI { 2.0 } else { 2.0 * (sweep / 2.0).sin() };
+                        let f32_cond = delta * geo_factor + delta * delta / r.max(1e-9);
+                        // K13: the denominator 2*cross itself is dominated by the rounding of its three products
+                        // (relative error >= 1/4): the computed centre is noise
+                        if 16.0 * 2f64.powi(-24) * e_den / (2.0 * cr.abs()) >= 0.25 && k8_shape.is_none() {
+                            k8_shape = Some(K13);
+                        }
                         let bound = if r < 1.0e4 { 0.4 + 8.0 * ulp } else { 1.0 + 8.0 * ulp } + f32_cond + sampling + 1e-3;
                         Geo { exact: arc.samples(n), bound, family: if r < 1.0e4 { "arc" } else { "arc:r>=1e4" } }
                     }
@@ -205,11 +226,11 @@ fn check_segment(mode: GameMode, kind: SplineType, seg: &[PathControlPoint]) -> 
     }
     let d1 = directed(&pathp, &geo.exact, geo.bound);
     if d1 > geo.bound {
-        return k8(k8_shape, format!("{}: path lies {d1} away from the exact curve, bound {}", geo.family, geo.bound));
+        return k8(k8_shape, format!("{}{}: path lies {d1} away from the exact curve, bound {}", geo.family, if fell_back { " (Bezier fallback of a triple that is neither collinear nor enormous)" } else { "" }, geo.bound));
     }
     let d2 = directed(&geo.exact, &pathp, geo.bound);
     if d2 > geo.bound {
-        return k8(k8_shape, format!("{}: exact curve lies {d2} away from the path, bound {}", geo.family, geo.bound));
+        return k8(k8_shape, format!("{}{}: exact curve lies {d2} away from the path, bound {}", geo.family, if fell_back { " (Bezier fallback of a triple that is neither collinear nor enormous)" } else { "" }, geo.bound));
     }
     SegVerdict::Ok(geo.family)
 }
@@ -235,7 +256,8 @@ fn segments(pts: &[PathControlPoint]) -> Vec<(SplineType, Vec<PathControlPoint>)
     out
 }
 
-fn check_case(mode: GameMode, pts: &[PathControlPoint], open_k8: bool, st: &mut Stats) -> CaseResult {
+fn check_case(mode: GameMode, pts: &[PathControlPoint], open: (bool, bool), st: &mut Stats) -> CaseResult {
+    let (open_k8, open_k13) = open;
     st.eval();
     let segs = segments(pts);
     let whole = path_of(mode, pts);
@@ -266,15 +288,15 @@ fn check_case(mode: GameMode, pts: &[PathControlPoint], open_k8: bool, st: &mut 
         // geometry of the segment on its own (also classifies the known finding, whose
         // output may contain NaN and therefore cannot take part in the equality checks)
         let seg_verdict = check_segment(mode, *kind, seg);
-        if matches!(seg_verdict, SegVerdict::Known) {
-            if open_k8 {
-                st.known(K8);
+        if let SegVerdict::Known(key, msg) = &seg_verdict {
+            if (*key == K8 && open_k8) || (*key == K13 && open_k13) {
+                st.known(key);
                 k8_hit = true;
                 prev_exact_end = false;
                 prefix = upto;
                 continue;
             }
-            return fail("perfect curve with radius >= 1e6 degenerates (chord / NaN)".into());
+            return fail(format!("{msg} (shape of the finding {key}, which is not listed as open)"));
         }
         // (3) in context the segment contributes what it produces on its own
         let sp = path_of(mode, seg);
@@ -299,7 +321,7 @@ fn check_case(mode: GameMode, pts: &[PathControlPoint], open_k8: bool, st: &mut 
                     curved = true;
                 }
             }
-            SegVerdict::Known => unreachable!(),
+            SegVerdict::Known(..) => unreachable!(),
             SegVerdict::Fail(m) => {
                 let mut v = case_json(mode, pts);
                 v["failing_segment"] = points_json(seg);
@@ -361,6 +383,24 @@ fn gen_family(t: &mut Tape) -> (GameMode, Vec<PathControlPoint>) {
                 if class <= 3 {
                     p[1].pos = Pos::new((p[1].pos.x * 4.0).round() / 4.0, (p[1].pos.y * 4.0).round() / 4.0);
                 }
+            } else if t.chance(20) {
+                // two of the three points distinct but very close (2e-4 .. 1e-1 px): b next to a, c next to b,
+                // or c next to a (an almost closed circle). Only at small coordinates (|x| <= 8), so that the
+                // tiny side is still hundreds of f32 ulps long - otherwise the triangle is rounding noise
+                for q in p.iter_mut() {
+                    q.pos = Pos::new((t.unit() * 16.0 - 8.0) as f32, (t.unit() * 16.0 - 8.0) as f32);
+                    if t.chance(50) {
+                        q.pos = Pos::new(q.pos.x.round(), q.pos.y.round());
+                    }
+                }
+                let d = *t.pick(&[2e-4f32, 5e-4, 1e-3, 2e-3, 1e-2, 1e-1]);
+                let ang = t.unit() * std::f64::consts::TAU;
+                let off = Pos::new((ang.cos() as f32) * d, (ang.sin() as f32) * d);
+                match t.below(3) {
+                    0 => p[1].pos = p[0].pos + off,
+                    1 => p[2].pos = p[1].pos + off,
+                    _ => p[2].pos = p[0].pos + off,
+                }
             }
             p
         }
@@ -392,6 +432,8 @@ pub fn run(ctx: &mut Ctx) {
     ctx.assumptions.push("bounds: Bezier 0.25 (the flatness tolerance) + 2^-20*scale; arc 0.4 (=2r(0.1/r)(2-0.1/r), one interval may subtend twice the tolerance angle) + 8 f32 ulps for r<1e4, 1.0 for 1e4<=r<1e6 (f32 value of 1-0.1/r has few bits); Catmull h^2/8*max|P''| with h=1/50 + 2^-18*scale, +6 px in osu! mode (simplification threshold); reference sampling error added".into());
     ctx.assumptions.push("B<k> (degree) path types are not generated: the crate treats every B-spline as a Bezier".into());
     let open_k8 = ctx.open(K8);
+    let open_k13 = ctx.open(K13);
+    let open = (open_k8, open_k13);
     crate::props::replay_regress_generic(ctx, replay);
 
     // exhaustive arcs on the small grid
@@ -418,9 +460,13 @@ pub fn run(ctx: &mut Ctx) {
                 }
                 Ok(())
             }
-            SegVerdict::Known => {
-                st.known(K8);
-                Ok(())
+            SegVerdict::Known(key, msg) => {
+                if (key == K8 && open_k8) || (key == K13 && open_k13) {
+                    st.known(key);
+                    Ok(())
+                } else {
+                    Err(Fail::json(msg, &case_json(GameMode::Taiko, &pts)))
+                }
             }
             SegVerdict::Fail(m) => Err(Fail::json(m, &case_json(GameMode::Taiko, &pts))),
         }
@@ -429,7 +475,7 @@ pub fn run(ctx: &mut Ctx) {
     let cases = ctx.tier.pick(60_000u64, 600_000u64);
     ctx.pbt("c17-random", cases, 200, |t, st| {
         let (mode, pts) = gen_family(t);
-        check_case(mode, &pts, open_k8, st)
+        check_case(mode, &pts, open, st)
     });
 
     // probe K8: near-collinear triples with a huge circumradius
@@ -447,7 +493,7 @@ pub fn run(ctx: &mut Ctx) {
             PathControlPoint { pos: c, path_type: None },
         ];
         st.label("probe:k8");
-        check_case(GameMode::Taiko, &pts, open_k8, st)
+        check_case(GameMode::Taiko, &pts, open, st)
     });
 }
 
@@ -461,6 +507,6 @@ pub fn replay(ctx: &mut Ctx, ext: &str, bytes: &[u8]) -> Result<Option<String>, 
         (mode, pts)
     };
     let mut st = Stats::default();
-    check_case(mode, &pts, ctx.open(K8), &mut st)?;
-    Ok(if st.known_hits.contains_key(K8) { Some(K8.to_string()) } else { None })
+    check_case(mode, &pts, (ctx.open(K8), ctx.open(K13)), &mut st)?;
+    Ok([K8, K13].into_iter().find(|k| st.known_hits.contains_key(*k)).map(|k| k.to_string()))
 }
